@@ -36,18 +36,35 @@ def quiet_world(ex, st, U, HU, N=8):
 
 def prog_put(ex, sw, st, idx):
     """Transaction::commit of a transaction for (symbolic key, symbolic hash); the transaction value is what the
-    real Transaction::new + Transaction::write leave behind (entry.real_tx).  -> (..., state to continue from)"""
+    real Transaction::new + Transaction::write leave behind (entry.real_tx).  -> [(..., state to continue from)]"""
     k = sw.sym_key(st, f"t{idx}_key")
     h = sw.sym_hash(st, f"t{idx}_hash")
-    tx, st, size = E.real_tx(ex, sw, st, k, idx, pending=True)
     sz = ex.new_int(st, "u64", f"t{idx}_size")
-    st.pc.append(sz.t == size.t)
-    tx.fields[E.tx_field(ex, "size")] = sz
     w = sw.iw
     for i in range(w.U):
         st.pc.append(z3.Implies(z3.And(w.pk[i], w.hk[i] == h), w.sk[i] == sz.t))
     st.pc.append(w.total + 3 * sz.t <= U64)
-    return ("put", find_fn(ex, "::commit", "transaction::"), [tx], dict(kind="put", key=k, hash=h, size=sz.t), st)
+    out = []
+    for tx, st2, size in E.real_tx(ex, sw, st, k, idx, pending=True):
+        st2.pc.append(sz.t == size.t)
+        tx.fields[E.tx_field(ex, "size")] = VInt(sz.t, "u64")
+        out.append(("put", find_fn(ex, "::commit", "transaction::"), [tx], dict(kind="put", key=k, hash=h, size=sz.t), st2))
+    return out
+
+
+def build_programs(ex, sw, st, kinds):
+    """-> [(programs, infos, state)]: one entry per combination of set-up variants of the operations"""
+    combos = [([], [], st)]
+    for i, kd in enumerate(kinds):
+        nxt = []
+        for progs, infos, s in combos:
+            pr = PROGS[kd](ex, sw, s, i)
+            for v in (pr if isinstance(pr, list) else [pr]):
+                name, fn, args, info = v[:4]
+                s2 = v[4] if len(v) > 4 else s
+                nxt.append((progs + [(f"T{i}:{name}", fn, args)], infos + [info], s2))
+        combos = nxt
+    return combos
 
 
 def prog_remove(ex, sw, st, idx):
@@ -140,32 +157,22 @@ def explore(ex, kinds, U=2, HU=2, inv=None, max_states=200000, no_orphans=False,
         sw.io.fault_filter = fault_rename_into_cas if faults else None
         if no_orphans:
             st.pc += [z3.Not(b) for b in sw.orphan_bits]
-        progs, infos = [], []
-        hashes = {}
-        for i, kd in enumerate(kinds):
-            pr = PROGS[kd](ex, sw, st, i)
-            name, fn, args, info = pr[:4]
-            if len(pr) > 4:
-                st = pr[4]    # the program's set-up ran real code: continue from the state it produced
-            progs.append((f"T{i}:{name}", fn, args))
-            infos.append(info)
-            if kd == "put":
-                hashes[i] = info["hash"]
-        st.meta["thread_hashes"] = hashes
-        # content addressing across threads: equal hashes mean equal contents, hence equal sizes
-        puts = [inf for inf in infos if inf["kind"] == "put"]
-        for a in range(len(puts)):
-            for b in range(a + 1, len(puts)):
-                st.pc.append(z3.Implies(puts[a]["hash"] == puts[b]["hash"], puts[a]["size"] == puts[b]["size"]))
+        finals, infos = [], []
         ex.models.reg("BlobHash::from_bytes", digest_hash_hook(ex))
-        ex.on_schedule = inv(sw, infos) if inv else None
         try:
-            starts = ex.start_threads(st, progs)
-            finals = []
-            for s0 in starts:
-                finals += ex.run(s0)
-                if len(finals) > max_states:
-                    break
+            for progs, infos, st1 in build_programs(ex, sw, st, kinds):
+                hashes = {i: inf["hash"] for i, inf in enumerate(infos) if inf["kind"] == "put"}
+                st1.meta["thread_hashes"] = hashes
+                # content addressing across threads: equal hashes mean equal contents, hence equal sizes
+                puts = [inf for inf in infos if inf["kind"] == "put"]
+                for a in range(len(puts)):
+                    for b in range(a + 1, len(puts)):
+                        st1.pc.append(z3.Implies(puts[a]["hash"] == puts[b]["hash"], puts[a]["size"] == puts[b]["size"]))
+                ex.on_schedule = inv(sw, infos) if inv else None
+                for s0 in ex.start_threads(st1, progs):
+                    finals += ex.run(s0)
+                    if len(finals) > max_states:
+                        break
         finally:
             ex.on_schedule = None
             sw.io.disk = None
